@@ -284,8 +284,8 @@ class GraphInitializers(collections.UserDict[str, "_core.Value"]):
             return
         value._graph = None
 
-    def __setitem__(self, key: str, value: _core.Value) -> None:
-        """Set an initializer for the graph."""
+    def _check_item(self, key: str, value: _core.Value) -> None:
+        """Raise if ``self[key] = value`` would be rejected. Does not modify anything."""
         if not isinstance(value, _core.Value):
             raise TypeError(f"value must be a Value object, not {type(value)}")
         if not isinstance(key, str):
@@ -305,6 +305,11 @@ class GraphInitializers(collections.UserDict[str, "_core.Value"]):
             raise ValueError(
                 f"Value '{value}' is already an initializer of a different graph. Please remove the value from the previous graph first"
             )
+
+    def __setitem__(self, key: str, value: _core.Value) -> None:
+        """Set an initializer for the graph."""
+        # Perform all checks before renaming the value or releasing the entry being replaced
+        self._check_item(key, value)
         if not value.name:
             logger.info("Value %s does not have a name, setting it to '%s'", value, key)
             value.name = key
@@ -324,6 +329,18 @@ class GraphInitializers(collections.UserDict[str, "_core.Value"]):
         ``UserDict`` would store the values without tracking their ownership. Use ``update()``.
         """
         raise RuntimeError("Method is not supported. Use update() instead")
+
+    def update(self, other=(), /, **kwargs) -> None:
+        """Set several initializers; every entry is validated before the first one is stored."""
+        items = dict(other, **kwargs)
+        seen: set[int] = set()
+        for key, value in items.items():
+            self._check_item(key, value)
+            if id(value) in seen:
+                raise ValueError(f"Value '{value}' is given under more than one key")
+            seen.add(id(value))
+        for key, value in items.items():
+            self[key] = value
 
     def __delitem__(self, key: str) -> None:
         """Delete an initializer from the graph."""
